@@ -146,20 +146,23 @@ impl Obs {
             return;
         }
         loop {
-            let ev = match st.events.as_mut().map(|s| s.try_recv()) {
-                Some(Ok(info)) => info.event,
+            let (ev, at_ns) = match st.events.as_mut().map(|s| s.try_recv()) {
+                Some(Ok(info)) => {
+                    let at = info.time.duration_since(std::time::UNIX_EPOCH).map(|d| d.as_nanos() as i64).unwrap_or_else(|_| self.ctx.wall_now_ns());
+                    (info.event, at)
+                }
                 Some(Err(TryRecvError::Empty)) | Some(Err(TryRecvError::Closed)) | None => break,
             };
-            self.on_event(&mut st, ev);
+            self.on_event(&mut st, ev, at_ns);
         }
     }
 
-    fn on_event(&self, st: &mut ObsState, ev: NodeEvent) {
+    fn on_event(&self, st: &mut ObsState, ev: NodeEvent, at_ns: i64) {
         let ctx = &self.ctx;
         match ev {
             NodeEvent::FetchingHeadersStarted { from_height, to_height } => {
                 ctx.ev("ev.fetch_started", from_height, to_height);
-                self.check_batch(st, from_height, to_height);
+                self.check_batch(st, from_height, to_height, at_ns);
             }
             NodeEvent::FetchingHeadersFinished { from_height, to_height, .. } => {
                 ctx.ev("ev.fetch_finished", from_height, to_height);
@@ -219,7 +222,7 @@ impl Obs {
     }
 
     /// C24 / C25 on an announced batch, judged against the syncer's own latest reads.
-    fn check_batch(&self, st: &mut ObsState, from: u64, to: u64) {
+    fn check_batch(&self, st: &mut ObsState, from: u64, to: u64, at_ns: i64) {
         let ctx = &self.ctx;
         st.announced.push((from, to));
         st.batches += 1;
@@ -278,7 +281,7 @@ impl Obs {
                 let edge = to + 1;
                 if synced.contains(&edge) && edge <= self.chain.len() {
                     let t = time_to_ns(self.chain.time_of(edge));
-                    let now = ctx.wall_now_ns();
+                    let now = at_ns;
                     if t < now - self.sampling_window_ns - EPS_NS {
                         let key = if stored.contains(&edge) { "bounding_header_stored" } else { "bounding_header_pruned" };
                         ctx.violation("C25", "window_edge", key,
@@ -867,6 +870,9 @@ async fn run_node(ctx: &Arc<RunCtx>) {
                             header_sub = Some((*head, channel));
                         }
                         P2pCommand::GetNetworkHead { respond_to } => {
+                            if let Some((h, _)) = header_sub.as_ref() {
+                                obs.told(h.height());
+                            }
                             let _ = respond_to.send(header_sub.as_ref().map(|(h, _)| h.clone()));
                         }
                         P2pCommand::GetNetworkCompromisedToken { respond_to } => {
